@@ -2,7 +2,7 @@
 # tools/seedtest.sh <PROP> <dir with patch.diff demo.py> [check ids...]  — confirm a seeded change and run checks against it
 # Uses a scratch worktree (/tmp/seedwt) at /repo's HEAD; never touches /repo itself.
 set -u
-PROP=$1; D=$2; shift 2; CHECKS=${@:-$PROP}
+PROP=$1; D=$(realpath $2); shift 2; CHECKS=${@:-$PROP}
 WT=/tmp/seedwt
 if [ ! -d $WT ]; then git -C /repo worktree add -q --detach $WT HEAD; fi
 git -C $WT checkout -q --detach $(git -C /repo rev-parse HEAD); git -C $WT checkout -q -- .
